@@ -31,3 +31,183 @@ def _passes_neutralised(c, diag):
     except Exception:
         return False
 
+
+
+# --------------------------------------------------------------------------- placement and comments / line structure
+# (found by the round-trip builder with the edit kind "placement": notes/_RT_shared.md; /repo is frozen, not repaired)
+import re as _re
+
+_MOD = _re.compile(r"^\s{0,4}\*?(imp:[a-z|,#/+\-!<>@*?%^_~]+|vol|u|lat|fill)\b", _re.I)
+_CLS = {"imp": "imp", "vol": "vol", "u": "u", "lat": "lat", "fil": "fill"}
+
+
+def _blocks(text):
+    """(cell block lines, data block lines) of an input text (title line first, no message block)"""
+    lines = text.split("\n")
+    out, cur = [], []
+    for l in lines[1:]:
+        if l.strip() == "":
+            out.append(cur)
+            cur = []
+        else:
+            cur.append(l)
+    out.append(cur)
+    out += [[]] * 3
+    return out[0], out[2]
+
+
+def _final_flags(c):
+    import props.C09 as C09
+    try:
+        return C09.run_real({"text": c["text"], "ops": c["ops"]}).get("flags") or {}
+    except Exception:
+        return {}
+
+
+def _data_cards_with_comments(text):
+    """[(class, card lines incl. the C lines before it)] of the data-block cards of the five classes that carry a
+    '$' comment or follow a C comment line"""
+    _, data = _blocks(text)
+    out = []
+    pending = []
+    i = 0
+    while i < len(data):
+        l = data[i]
+        if _re.match(r"^\s{0,4}c(\s|$)", l, _re.I):
+            pending.append(l)
+            i += 1
+            continue
+        m = _MOD.match(l)
+        card = [l]
+        j = i + 1
+        while j < len(data) and (data[j].startswith("     ") or card[-1].split("$")[0].rstrip().endswith("&")):
+            card.append(data[j])
+            j += 1
+        if m and (pending or any("$" in x for x in card)):
+            out.append((_CLS[m.group(1).lower()[:3]], pending + card))
+        pending = []
+        i = j
+    return out
+
+
+def _strip_data_comments(text):
+    """the input without the comments on / before the data-block cards of the five classes (same meaning)"""
+    cell, data = _blocks(text)
+    bad = set()
+    for _, lines in _data_cards_with_comments(text):
+        for l in lines:
+            bad.add(l)
+    out = []
+    in_data = False
+    blank = 0
+    for l in text.split("\n"):
+        if l.strip() == "":
+            blank += 1
+        if blank >= 2 and l in bad:
+            if _re.match(r"^\s{0,4}c(\s|$)", l, _re.I):
+                continue
+            l = l.split("$")[0].rstrip()
+        out.append(l)
+    return "\n".join(out)
+
+
+def _passes(c2):
+    import props.C09 as C09
+    try:
+        return C09.check_case(c2) is None
+    except Exception:
+        return False
+
+
+def C09_data_comment_into_cell(case, params):
+    """a data-block card of the five classes with a '$' comment, printed in the cell block: the comment travels with
+    the last value node into a cell card and hides the parameters written after it"""
+    c = _core(case)
+    if c is None or case.get("kind") not in ("datum-count", "reread-differs", "reread-raises"):
+        return False
+    fl = _final_flags(c)
+    cards = [(k, ls) for k, ls in _data_cards_with_comments(c["text"]) if any("$" in x for x in ls) and fl.get(k) is False]
+    if not cards:
+        return False
+    return _passes({"text": _strip_data_comments(c["text"]), "ops": c["ops"]})
+
+
+def C09_data_card_comments_lost(case, params):
+    """a data-block card of the five classes with comments (C line before it, '$' on it), printed in the cell block:
+    the card is not written and its comments vanish"""
+    c = _core(case)
+    if c is None or case.get("kind") != "comment-lost":
+        return False
+    fl = _final_flags(c)
+    texts = []
+    for k, ls in _data_cards_with_comments(c["text"]):
+        if fl.get(k) is False:
+            for l in ls:
+                if "$" in l:
+                    texts.append(l.split("$", 1)[1].strip().lower())
+                elif _re.match(r"^\s{0,4}c(\s|$)", l, _re.I):
+                    texts.append(l.strip()[1:].strip().lower())
+    lost = [str(x).lower() for x in (case.get("detail") or [])]
+    return bool(lost) and all(x in texts for x in lost)
+
+
+_KEY_THEN_COMMENT = _re.compile(r"(imp:[a-z,]+|vol|u|lat|fill)\s*=?\s*\$", _re.I)
+
+
+def C09_comment_between_key_and_value(case, params):
+    """a cell parameter of the five classes whose '$' comment stands between the key and the value (value on the next
+    line), printed in the data block: that comment is lost"""
+    c = _core(case)
+    if c is None or case.get("kind") != "comment-lost":
+        return False
+    fl = _final_flags(c)
+    cell, _ = _blocks(c["text"])
+    texts = []
+    for l in cell:
+        m = _KEY_THEN_COMMENT.search(l.split("$")[0] + "$") if "$" in l else None
+        if m and l.split("$")[0].rstrip().lower().endswith((m.group(1).lower(), m.group(1).lower() + "=")):
+            k = _CLS[m.group(1).lower()[:3]]
+            if fl.get(k) is True:
+                texts.append(l.split("$", 1)[1].strip().lower())
+    lost = [str(x).lower() for x in (case.get("detail") or [])]
+    return bool(lost) and all(x in texts for x in lost)
+
+
+def C09_imp_cells_to_data_block(case, params):
+    """a cell card whose IMP parameter is followed by an '&' continuation, IMP printed in the data block: the '&'
+    goes into the new data card ('imp:e 1 &'), which swallows the card after it"""
+    c = _core(case)
+    if c is None or case.get("kind") not in ("misaligned", "vector-entry", "datum-count", "reread-differs", "reread-raises"):
+        return False
+    if _final_flags(c).get("imp") is not True:
+        return False
+    cell, _ = _blocks(c["text"])
+    if not any(_re.search(r"imp:[a-z,]+\s*=?\s*[-+.0-9e]+\s*&\s*$", l, _re.I) for l in cell):
+        return False
+    # the same input with 5-blank continuation lines instead of '&'
+    lines = c["text"].split("\n")
+    out = []
+    cont = False
+    for l in lines:
+        if cont and l.strip():
+            l = "     " + l.lstrip()
+        cont = l.split("$")[0].rstrip().endswith("&")
+        if cont:
+            l = l.split("$")[0].rstrip()[:-1].rstrip()
+        out.append(l)
+    return _passes({"text": "\n".join(out), "ops": c["ops"]})
+
+
+def C09_classifier_emptied_by_data_write(case, params):
+    """a cell parameter 'imp:x,y=v' (one tree for several particles), a write_to_file while IMP is printed in the
+    data block, then IMP printed in the cell block: the cell's classifier has lost its particles ('imp:=2 imp:=2')"""
+    import props.C09 as C09
+    c = _core(case)
+    if c is None or case.get("kind") != "imp-key-unreadable":
+        return False
+    cell, _ = _blocks(c["text"])
+    if not any(_re.search(r"imp:[a-z]+,[a-z,]+\s*=?", l, _re.I) for l in cell):
+        return False
+    if not any(o[0] == "Wr" for o in c["ops"]):
+        return False
+    return _passes({"text": c["text"], "ops": [o for o in c["ops"] if o[0] != "Wr"]})
